@@ -151,25 +151,18 @@ func Check(i *Item) error {
 func CheckIncoming(stored, incoming *Item) error {
 	// If the sequence number is equal, and the value is also the same,
 	// the node SHOULD reset its timeout counter.
-	if stored.Seq == incoming.Seq {
-		if bytes.Equal(
-			bencode.MustMarshal(stored.V),
-			bencode.MustMarshal(incoming.V),
-		) {
-			return nil
-		}
-	}
+	sameVersion := stored.Seq == incoming.Seq && bytes.Equal(
+		bencode.MustMarshal(stored.V),
+		bencode.MustMarshal(incoming.V),
+	)
 
-	if stored.Seq >= incoming.Seq {
+	if !sameVersion && stored.Seq >= incoming.Seq {
 		return ErrSequenceNumberLessThanCurrent
 	}
 
-	// Cas should be ignored if not present
-	if stored.Cas == 0 {
-		return nil
-	}
-
-	if stored.Cas != incoming.Cas {
+	// Cas should be ignored if not present. If present it is the sequence
+	// number of the stored item the put expects to overwrite.
+	if incoming.Cas != 0 && incoming.Cas != stored.Seq {
 		return ErrCasHashMismatched
 	}
 
